@@ -14,7 +14,10 @@ from pydcop.dcop.relations import NAryMatrixRelation, constraint_from_str
 from pydcop.dcop.yamldcop import dcop_yaml, load_dcop, load_dcop_from_file
 
 SHAPES = ["single", "unary1", "pair", "pair3", "pairrev", "parallel", "unarypair", "isolated", "path3", "path3d3", "triangle", "tern", "twocomp", "star4"]
-VALS = [[7, 3, 5, 11], ["R", "G", "B", "A"], [0, 1, 2, 3], ["1", "0", "x y".replace(" ", "_"), "no"]]
+# value lists: unordered ints, strings, a contiguous increasing range, strings that look like other YAML types, contiguous
+# ranges that are NOT in increasing order (a dump as "min .. max" would reorder them), floats
+VALS = [[7, 3, 5, 11], ["R", "G", "B", "A"], [0, 1, 2, 3], ["1", "0", "x y".replace(" ", "_"), "no"],
+        [3, 2, 1, 0], [1, 0, 2, 3], [1.5, 0.5, 2.0, 3.25]]
 
 
 def token(x):
